@@ -45,6 +45,10 @@ structure VS where
   frozen : Bool
 deriving Repr, BEq, DecidableEq, Inhabited
 
+def Init.isFull : Init → Bool
+  | .full => true
+  | _ => false
+
 def VS.value : VS := { init := .full, sealed := false, dirty := false, frozen := false }
 def VS.empty : VS := { init := .none, sealed := false, dirty := false, frozen := false }
 def VS.cached : VS := { init := .full, sealed := true, dirty := false, frozen := true }
@@ -84,18 +88,20 @@ def readVar (σ : AState) (x : Var) : Except Err AState :=
   match σ.lookup x with
   | none => .error ⟨"read-unbound", x⟩
   | some v =>
-    if v.init == .full then .ok (put σ x { v with sealed := true, dirty := false })
+    if v.init.isFull then .ok (put σ x { v with sealed := true, dirty := false })
     else .error ⟨"read-uninitialised", x⟩
 
 def readAll (σ : AState) : List Var → Except Err AState
   | [] => .ok σ
   | x :: xs => (readVar σ x).bind fun σ' => readAll σ' xs
 
-/-- the initialisation state after (zero-)filling or writing the region `sig` -/
+/-- the initialisation state after (zero-)filling or writing the region `sig`; writing a part of an array that has
+been read starts a new generation of the array (`LoopConcatenate` in an outer loop) -/
 def initAfter (v : VS) (sig : Sig) : Init :=
-  if sig.isEmpty then .full else
-    match v.init with
-    | .full => if v.sealed then .part [sig] else .full
+  if sig.isEmpty then .full
+  else if v.sealed then .part [sig]
+  else match v.init with
+    | .full => .full
     | .part zs => .part (sig :: zs)
     | .none => .part [sig]
 
@@ -109,8 +115,8 @@ def doFill (σ : AState) (x : Var) (sig : Sig) : Except Err AState :=
   | none => .error ⟨"write-unbound", x⟩
   | some v =>
     if v.frozen then .error ⟨"write-cached", x⟩
-    else if v.dirty then .error ⟨"discard-unread-contributions", x⟩
-    else .ok (put σ x { init := initAfter v sig, sealed := false, dirty := false, frozen := false })
+    else if v.dirty && sig.isEmpty then .error ⟨"discard-unread-contributions", x⟩
+    else .ok (put σ x { init := initAfter v sig, sealed := false, dirty := v.dirty && !sig.isEmpty, frozen := false })
 
 def doWrite (σ : AState) (x : Var) (sig : Sig) : Except Err AState :=
   match σ.lookup x with
@@ -120,18 +126,20 @@ def doWrite (σ : AState) (x : Var) (sig : Sig) : Except Err AState :=
     else if v.dirty && sig.isEmpty then .error ⟨"discard-unread-contributions", x⟩
     else .ok (put σ x { init := initAfter v sig, sealed := false, dirty := true, frozen := false })
 
+/-- may a contribution be accumulated into the region `sig` of an array in this initialisation state? -/
+def accOK : Init → Sig → Bool
+  | .full, _ => true
+  | .part zs, sig => zs.any fun z => isPrefix z sig
+  | .none, _ => false
+
 def doAccum (σ : AState) (x : Var) (sig : Sig) : Except Err AState :=
   match σ.lookup x with
   | none => .error ⟨"write-unbound", x⟩
   | some v =>
     if v.frozen then .error ⟨"write-cached", x⟩
     else if v.sealed then .error ⟨"accumulate-after-read", x⟩
-    else
-      let ok := match v.init with
-        | .full => true
-        | .part zs => zs.any fun z => isPrefix z sig
-        | .none => false
-      if ok then .ok (put σ x { v with dirty := true }) else .error ⟨"accumulate-into-uninitialised", x⟩
+    else if accOK v.init sig then .ok (put σ x { v with dirty := true })
+    else .error ⟨"accumulate-into-uninitialised", x⟩
 
 /-! ## joins and the order `a ⊑ b` ("b is at least as pessimistic as a") -/
 
@@ -155,7 +163,11 @@ def leInit : Init → Init → Bool
 def leVS (a b : VS) : Bool :=
   leInit a.init b.init && (!a.sealed || b.sealed) && (!a.dirty || b.dirty) && (!a.frozen || b.frozen)
 
-def keys (σ : AState) : List Var := (σ.map (·.1)).eraseDups
+def dedup : List Var → List Var
+  | [] => []
+  | x :: xs => if (dedup xs).contains x then dedup xs else x :: dedup xs
+
+def keys (σ : AState) : List Var := dedup (σ.map (·.1))
 
 /-- the variables of `σ`, with the states they have in `τ` (variables unbound in `τ` are dropped) -/
 def restrict (σ τ : AState) : AState :=
@@ -190,22 +202,25 @@ def exitSigsL : List Stmt → List (Var × Sig)
   | s :: rest => exitSigsS s ++ exitSigsL rest
 end
 
+/-- the region `sig` of an array in state `v` has been completed (`sig = []`: the whole array) -/
+def promoteVS (v : VS) (sig : Sig) : VS :=
+  if sig.isEmpty then { v with init := .full, sealed := false }
+  else { v with init := match v.init with
+    | .full => .full
+    | .part zs => .part (sig :: zs)
+    | .none => .part [sig] }
+
 def promote1 (σ : AState) (p : Var × Sig) : AState :=
   match σ.lookup p.1 with
   | none => σ
-  | some v =>
-    if p.2.isEmpty then put σ p.1 { v with init := .full, sealed := false }
-    else match v.init with
-      | .full => σ
-      | .part zs => put σ p.1 { v with init := .part (p.2 :: zs) }
-      | .none => put σ p.1 { v with init := .part [p.2] }
+  | some v => put σ p.1 (promoteVS v p.2)
 
 def promote (σ : AState) (ps : List (Var × Sig)) : AState := ps.foldl promote1 σ
 
 /-! ## the checker -/
 
 def cachedOK (σ : AState) (cached : List Var) : Except Err Unit :=
-  match cached.find? (fun c => match σ.lookup c with | some v => !(v.init == .full) | none => true) with
+  match cached.find? (fun c => match σ.lookup c with | some v => !v.init.isFull | none => true) with
   | some c => .error ⟨"cached-not-computed", c⟩
   | none => .ok ()
 
@@ -261,32 +276,41 @@ def Stmt.isSimple : Stmt → Bool
   | .rerun .. => false
   | _ => true
 
-mutual
-inductive ExecS : Stmt → AState → Except Err AState → Prop
-  | simple (s : Stmt) (c : AState) : s.isSimple = true → ExecS s c (stepSimple s c)
-  | loopReadErr (i reads body c e) : readAll c reads = .error e → ExecS (.loop i reads body) c (.error e)
-  | loop (i reads body c c0 r) : readAll c reads = .ok c0 → ExecIter i body c0 c0 r →
-      ExecS (.loop i reads body) c (r.map fun cN => promote cN (exitSigsL body))
-  | rerunFirst (cached first again c r) : ExecL first c r → ExecS (.rerun cached first again) c r
-  | rerunAgain (cached first again c r) : ExecL again (bindCached c cached) r → ExecS (.rerun cached first again) c r
-/-- `ExecIter i body c0 c r`: zero or more iterations of the loop body, starting in `c` (`c0` = state at loop entry,
+/-- what can be executed: a statement, a block, or the remaining iterations of a loop (`c0` = state at loop entry,
 whose variables are the ones that survive an iteration) -/
-inductive ExecIter : Var → List Stmt → AState → AState → Except Err AState → Prop
-  | done (i body c0 c) : ExecIter i body c0 c (.ok c)
-  | fail (i body c0 c e) : ExecL body (put c i VS.value) (.error e) → ExecIter i body c0 c (.error e)
-  | step (i body c0 c c1 r) : ExecL body (put c i VS.value) (.ok c1) → ExecIter i body c0 (restrict c0 c1) r → ExecIter i body c0 c r
-inductive ExecL : List Stmt → AState → Except Err AState → Prop
-  | nil (c) : ExecL [] c (.ok c)
-  | consErr (s rest c e) : ExecS s c (.error e) → ExecL (s :: rest) c (.error e)
-  | cons (s rest c c1 r) : ExecS s c (.ok c1) → ExecL rest c1 r → ExecL (s :: rest) c r
-end
+inductive Code where
+  | stmt (s : Stmt)
+  | block (l : List Stmt)
+  | iter (i : Var) (body : List Stmt) (c0 : AState)
 
-/-- `a ⊑ b` -/
-def le (a b : AState) : Prop :=
-  ∀ x, match a.lookup x, b.lookup x with
-    | some va, some vb => leVS va vb = true
-    | none, some _ => False
-    | _, none => True
+inductive Exec : Code → AState → Except Err AState → Prop
+  | simple (s : Stmt) (c : AState) : s.isSimple = true → Exec (.stmt s) c (stepSimple s c)
+  | loopReadErr (i : Var) (reads : List Var) (body : List Stmt) (c : AState) (e : Err) :
+      readAll c reads = .error e → Exec (.stmt (.loop i reads body)) c (.error e)
+  | loop (i : Var) (reads : List Var) (body : List Stmt) (c c0 : AState) (r : Except Err AState) :
+      readAll c reads = .ok c0 → Exec (.iter i body c0) c0 r →
+      Exec (.stmt (.loop i reads body)) c (r.map fun cN => promote cN (exitSigsL body))
+  | rerunFirst (cached : List Var) (first again : List Stmt) (c : AState) (r : Except Err AState) :
+      Exec (.block first) c r → Exec (.stmt (.rerun cached first again)) c r
+  | rerunAgain (cached : List Var) (first again : List Stmt) (c : AState) (r : Except Err AState) :
+      Exec (.block again) (bindCached c cached) r → Exec (.stmt (.rerun cached first again)) c r
+  | iterDone (i : Var) (body : List Stmt) (c0 c : AState) : Exec (.iter i body c0) c (.ok c)
+  | iterFail (i : Var) (body : List Stmt) (c0 c : AState) (e : Err) :
+      Exec (.block body) (put c i VS.value) (.error e) → Exec (.iter i body c0) c (.error e)
+  | iterStep (i : Var) (body : List Stmt) (c0 c c1 : AState) (r : Except Err AState) :
+      Exec (.block body) (put c i VS.value) (.ok c1) → Exec (.iter i body c0) (restrict c0 c1) r → Exec (.iter i body c0) c r
+  | nil (c : AState) : Exec (.block []) c (.ok c)
+  | consErr (s : Stmt) (rest : List Stmt) (c : AState) (e : Err) : Exec (.stmt s) c (.error e) → Exec (.block (s :: rest)) c (.error e)
+  | cons (s : Stmt) (rest : List Stmt) (c c1 : AState) (r : Except Err AState) :
+      Exec (.stmt s) c (.ok c1) → Exec (.block rest) c1 r → Exec (.block (s :: rest)) c r
+
+def leO : Option VS → Option VS → Prop
+  | some va, some vb => leVS va vb = true
+  | none, some _ => False
+  | _, none => True
+
+/-- `a ⊑ b`: every variable bound in `b` is bound in `a`, in a state that is at least as defined -/
+def le (a b : AState) : Prop := ∀ x, leO (a.lookup x) (b.lookup x)
 
 /-! ## block ids
 
